@@ -60,7 +60,7 @@ def build_case(b, name):
         for w, pr in hp.items():
             hprog[str(int(w))] = {"wake": [list(a) for a in _seq(pr.get("wake", []))],
                                   "final": [list(a) for a in _seq(pr.get("final", []))]}
-    return {"case": name, "kind": kind, "props": [], "wakers": wl, "threads": threads, "fillers": fillers, "hprog": hprog, "cecho": bool(b.get("cecho", False)),
+    return {"case": name, "kind": kind, "props": [], "wakers": wl, "threads": threads, "fillers": fillers, "hprog": hprog, "cecho": bool(b.get("cecho", False)), "gdf": bool(b.get("gdf", False)),
             "main": _ops(b["main"]), "schedule": [int(x) for x in _seq(b["sched"])], "seed": 1, "fallback": "rr",
             "autodrop": False, "ctl": ctl,
             "pred_lo": _seq(b["lo"]), "pred_hi": _seq(b["hi"])}
